@@ -121,6 +121,7 @@ def payloads(fx_dir, tier):
         # ignore the declarations that follow (XML 1.0, 5.1): refused as forbidden or as not well-formed (undefined
         # entity), never expanded
         'undeclared_pe': (f'<!DOCTYPE ROOT [ %undeclared; <!ENTITY x "{MARK}">]>', '&x;', 'skippable'),
+        'standalone_external_subset_only': (f'<!DOCTYPE ROOT SYSTEM "file://{extdtd}">', '', True, True),
         'standalone_external_subset': (f'<!DOCTYPE ROOT SYSTEM "file://{extdtd}" [<!ENTITY x "{MARK}">]>', '&x;', True, True),
         'after_70k_prolog': (big + f'<!DOCTYPE ROOT [<!ENTITY x "{MARK}">]>', '&x;', True),
         # clean documents whose root element starts near / after the end of the re-reader's 64 KiB buffer (the scanning
